@@ -1239,6 +1239,44 @@ def pair_renaming(rng: random.Random, pairs: list[tuple[str, str, str]], domain:
 	return mapping, tags
 
 
+AFFIX_GROUP = {'class': 'class', 'nested-class': 'class', 'function': 'callable', 'method': 'callable', 'closure': 'callable'}
+
+
+def affix_stems(extra: Any = ()) -> dict[str, list[str]]:
+	"""Words tranp itself gives a meaning to, by the kind of identifier that could be confused with them: class-like words for
+	classes, callable words for functions / methods, the rest for variables. From RESERVED_STEMS and the words of the generated
+	name table that are compared with callees / types (`extra`)."""
+	words = sorted({w for w in [*RESERVED_STEMS, *extra] if IDENT_RE.fullmatch(w) and len(w) > 1})
+	cls_like = [w for w in words if w[0].isupper() or w in ('int', 'float', 'bool', 'str', 'list', 'dict', 'type', 'object', 'const', 'tuple', 'set')]
+	call_like = [w for w in words if w not in cls_like and w in ('init', '__init__', 'len', 'print', 'range', 'enumerate', 'new', 'delete', 'operator', 'function', 'closure', 'method',
+		'items', 'keys', 'values', 'append', 'pop', 'get', 'copy', 'raw', 'on', 'ref', 'addr', 'isinstance', 'issubclass', 'char', 'super', 'lambda', 'def')]
+	var_like = [w for w in words if w not in cls_like]
+	return {'class': cls_like, 'callable': call_like or var_like, 'var': var_like}
+
+
+def affix_renaming(rng: random.Random, domain: dict[str, str], idents: set[str], reserved: Reserved, stems: dict[str, list[str]], c: int, side: int) -> dict[str, str]:
+	"""ONE legal renaming in which up to three identifiers of every kind get a word of `stems` as a proper suffix (side 0:
+	`StateEnum`, `xself`) or proper prefix (side 1: `Enumx`, `selfq2`) — `c` rotates through the words, so that `c` in
+	range(len(words)) gives every identifier every word of its group."""
+	mapping: dict[str, str] = {}
+	taken = set(idents)
+	for ki, kind in enumerate(sorted(set(domain.values()))):
+		ids = sorted(n for n, k in domain.items() if k == kind)
+		words = stems[AFFIX_GROUP.get(kind, 'var')]
+		if not words:
+			continue
+		for t, x in enumerate(ids[:3]):
+			stem = words[(c + 5 * t + 3 * ki) % len(words)].strip('_') or 'init'
+			filler = rng.choice(['x', 'q2', 'Sub', 'zz', 'State']) if AFFIX_GROUP.get(kind) == 'class' else rng.choice(['x', 'q2', 'sub', 'zz', 'n'])
+			us = '_' * min(Reserved.underscore_class(x), 2)
+			new = us + (filler + stem if side == 0 else stem + filler)
+			if new in taken or not IDENT_RE.fullmatch(new) or not reserved.fresh_ok(new, x, kind):
+				continue
+			mapping[x] = new
+			taken.add(new)
+	return mapping
+
+
 def generate_pairs_program(rng: random.Random, avoid: Any = ()) -> str:
 	"""A program in which user identifiers MEET: an outer variable declared before variables that are first assigned inside nested
 	if / for / while / try blocks, loop variables next to outer variables, lambdas and a closure whose parameters stand beside
@@ -1251,7 +1289,8 @@ def generate_pairs_program(rng: random.Random, avoid: Any = ()) -> str:
 	fn, ap, cb, cv = r.sample(['calc', 'fold', 'scan', 'tune', 'apply_it', 'run_it', 'mix'], 4)
 	o1, o2, i1, i2, i3, i4, lv, lp, lp2, cl, cp, p1, p2, res, c1, c2 = pool
 	cls = r.choice(['Meter', 'Gauge', 'Ledger'])
-	f1, f2, m1, m2 = r.sample(['reading', 'scale', 'tick', 'reset_to', 'peak', 'floor_of', 'span'], 4)
+	f1, f2, m1, m2, m3 = r.sample(['reading', 'scale', 'tick', 'reset_to', 'peak', 'floor_of', 'span', 'settle'], 5)
+	sub = {'Meter': 'Dial', 'Gauge': 'Probe', 'Ledger': 'Journal'}[cls]
 	lines = [
 		'from collections.abc import Callable',
 		'',
@@ -1276,6 +1315,10 @@ def generate_pairs_program(rng: random.Random, avoid: Any = ()) -> str:
 		f'\tdef {m2}(self) -> int:',
 		f'\t\treturn self.{m1}(self.{f2})',
 		'',
+		f'class {sub}({cls}):',
+		f'\tdef {m3}(self) -> int:',
+		f'\t\treturn self.{m2}() + self.{f1}',
+		'',
 		f'def {fn}({p1}: bool, {p2}: int) -> int:',
 		f'\t{o1} = {p2} + 1',
 		f'\t{o2} = {o1} * 2',
@@ -1295,7 +1338,7 @@ def generate_pairs_program(rng: random.Random, avoid: Any = ()) -> str:
 	r.shuffle(chosen)
 	for b in chosen:
 		lines += b
-	lines += [f'\treturn {o1} + {o2}']
+	lines += [f'\tprint({sub}({o1}).{m3}())', f'\treturn {o1} + {o2}']
 	src = '\n'.join(lines) + '\n'
 	ast.parse(src)
 	return src
